@@ -232,3 +232,7 @@ for _p in ("C03", "C04", "C07", "C11"):
     PROPERTIES[_p]["rules"] += [sig.weight_index_order]
     PROPERTIES[_p]["explanation"] += (" The weight function indexes the transition array in the signature order of the next function, the "
                                       "order of the template's axes (R17.WORDER).")
+PROPERTIES["C12"]["rules"] += [bel.bellman_form]
+PROPERTIES["C12"].setdefault("filter", {})["R13.ALG1"] = lambda o: o.key.startswith(("AX6", "R13.ALG1"))
+PROPERTIES["C12"]["explanation"] += (" Node values and node weights of stochastic states are laid out on the same axes (AX6): otherwise an accepted "
+                                     "model with stochastic states of different sizes fails with a broadcasting error at the first solve.")
